@@ -270,8 +270,10 @@ def legacy_oracle(ctx, tdir, n, driver_jobs):
             a = profile.Profile(path=pl, create=False)
             b_ = profile.Profile(path=pj, create=False)
             da, db = a.load(), b_.load()
-            ok = (da == db)
-            obs = {k: (repr(da.get(k)), repr(db.get(k))) for k in set(da) | set(db) if da.get(k) != db.get(k)}
+            # (the segment is an integer setting: the fitter refuses anything else)
+            ok = (da == db) and all(type(da[k_]) is type(db[k_]) for k_ in ("segment",) if k_ in da and k_ in db)
+            obs = {k: (repr(da.get(k)), repr(db.get(k))) for k in set(da) | set(db)
+                   if da.get(k) != db.get(k) or (k == "segment" and type(da.get(k)) is not type(db.get(k)))}
         except BaseException as e:  # noqa
             ok, obs = False, repr(e)
             if malformed and isinstance(e, ValueError):
@@ -574,33 +576,55 @@ def stats_oracle(ctx, tdir):
     pp = tdir / "stat_profile.cfg"
     pf = profile.Profile(path=pp)
     pf["model_key"] = "hertz_para"
-    with warnings.catch_warnings():
-        warnings.simplefilter("ignore")
-        import io
-        import contextlib
-        with contextlib.redirect_stdout(io.StringIO()):
-            rating.fit_perform(folder, out, profile_path=pp)
-    rows = (out / "statistics.tsv").read_text().splitlines()
-    ok = rows[0].split("\t") == ["path", "enum", "E", "rating"] and len(rows) == 3 and \
-        sorted(pathlib.Path(r.split("\t")[0]).name for r in rows[1:]) == ["curve0.tab", "curve1.tab"]
-    detail = rows[:3]
-    if ok:
-        for i, row in enumerate(rows[1:]):
-            path, enum, E, rt = row.split("\t")
-            grp = nanite.IndentationGroup(path)
-            rating.fit_data.cache_clear()
-            ref = rating.fit_data(grp[0], profile_path=pp)
-            e_ref = ref.fit_properties["params_fitted"]["E"].value
-            r_ref = round(ref.rate_quality(training_set=pf["rating training set"],
-                                           regressor=pf["rating regressor"]), 1)
-            if pathlib.Path(path).parent != folder or int(enum) != ref.enum \
-                    or abs(float(E) - e_ref) > 1e-9 * abs(e_ref) or float(rt) != float(r_ref):
-                ok = False
-                detail = [row, str(e_ref), str(r_ref)]
-    ctx.case({"oracle": "statistics.tsv", "rows": rows[:3]}, nontrivial="stats", bucket="oracle=statistics")
-    if not ok:
-        ctx.violation("statistics-file", "statistics.tsv does not hold one correct row per curve",
-                      {"observed": detail})
+    # the same profile in the legacy key = value format (pre-JSON versions wrote these)
+    pl = tdir / "stat_profile_legacy.cfg"
+    pl.write_text("model_key = hertz_para\nsegment = approach\nrange_type = absolute\nrange_x = 0,0\n"
+                  "weight_cp = 5e-07\n")
+    import io
+    import contextlib
+
+    def one_run(label, prof):
+        with warnings.catch_warnings():
+            warnings.simplefilter("ignore")
+            with contextlib.redirect_stdout(io.StringIO()):
+                try:
+                    rating.fit_perform(folder, out, profile_path=prof)
+                except BaseException as e:  # noqa
+                    ctx.violation("batch-fit-raises:" + label.split()[0], f"fit_perform with {label} raises {e!r}",
+                                  {"history": hist + [label], "observed": repr(e)})
+                    return
+        rows = (out / "statistics.tsv").read_text().splitlines()
+        ok = rows[0].split("\t") == ["path", "enum", "E", "rating"] and len(rows) == 3 and \
+            sorted(pathlib.Path(r.split("\t")[0]).name for r in rows[1:]) == ["curve0.tab", "curve1.tab"]
+        detail = rows[:6]
+        if ok:
+            pfr = profile.Profile(path=prof, create=False)
+            for i, row in enumerate(rows[1:]):
+                path, enum, E, rt = row.split("\t")
+                grp = nanite.IndentationGroup(path)
+                rating.fit_data.cache_clear()
+                ref = rating.fit_data(grp[0], profile_path=prof)
+                e_ref = ref.fit_properties["params_fitted"]["E"].value
+                r_ref = round(ref.rate_quality(training_set=pfr["rating training set"],
+                                               regressor=pfr["rating regressor"]), 1)
+                if pathlib.Path(path).parent != folder or int(enum) != ref.enum \
+                        or abs(float(E) - e_ref) > 1e-9 * abs(e_ref) or float(rt) != float(r_ref):
+                    ok = False
+                    detail = [row, str(e_ref), str(r_ref)]
+        ctx.case({"oracle": "statistics.tsv", "run": label, "rows": rows[:4]}, nontrivial="stats:" + label,
+                 bucket="oracle=statistics")
+        if not ok:
+            ctx.violation("statistics-file:" + label.split()[0], f"statistics.tsv does not hold one correct row per "
+                          f"curve after {label} ({len(rows)} lines)", {"history": hist + [label], "observed": detail})
+    hist = []
+    one_run("first run", pp)
+    hist.append("fit_perform(folder, out, profile)")
+    # the user edits the profile and runs the batch fit again into the same results directory
+    pf["fit param R value"] = 7e-6
+    hist.append("profile['fit param R value'] = 7e-6")
+    one_run("second run into the same directory", pp)
+    hist.append("fit_perform(folder, out, profile)")
+    one_run("legacy-format profile (key = value lines)", pl)
 
 
 def run(ctx):
